@@ -176,6 +176,22 @@ theorem cookie_cond_iff (n v : Bytes) (k : Kind) (m : Message) :
     refine ⟨c, hc, ?_⟩
     cases v <;> simp_all
 
+/-! ## 7. port.Filter -/
+
+/-- The port of the request URL — the explicit one, else 80 for `http`, 443 for `https` — is the
+filter's; for responses too (after `repo-patches/C12-fix-port-filter-response.patch`; the unpatched
+`ModifyResponse` returns an error when there is no explicit port and the default is not the filter's:
+known finding `c12:port-filter-response-error`). -/
+theorem port_cond_iff (p : Int) (k : Kind) (m : Message) :
+    holds (.port p) k m = true ↔
+      (match explicitPort m.host with
+       | none => p = defaultPort m.scheme
+       | some ps => atoi ps = some p) := by
+  simp only [holds, portMatches]
+  cases explicitPort m.host <;> simp
+
+theorem port_cond_reads_the_request (p : Int) (k : Kind) (m : Message) : holds (.port p) k m = holds (.port p) .req m := rfl
+
 /-! ## Non-vacuity (concrete witnesses; `decide +kernel` = evaluation by the kernel, a test, not a proof of the property) -/
 
 def exMsg : Message :=
@@ -194,6 +210,8 @@ example : holds (.header (strBytes "x-a") (strBytes "2")) .res exMsg = false := 
 example : holds (.header (strBytes "content-length") (strBytes "5")) .req exMsg = true := by decide +kernel
 example : holds (.header (strBytes "transfer-encoding") (strBytes "chunked")) .res exMsg = true := by decide +kernel
 example : holds (.cookie (strBytes "c1") []) .req exMsg = true ∧ holds (.cookie (strBytes "c1") []) .res exMsg = false := by decide +kernel
+example : holds (.port 443) .res exMsg = true ∧ holds (.port 8080) .res exMsg = false ∧
+    holds (.port 8080) .req { exMsg with host := strBytes "a.example:8080" } = true := by decide +kernel
 /-- hypotheses of `matchHost_wildcard_label` are satisfiable; and a wildcard does not span two labels -/
 example : matchHost (strBytes "www.a.example") (strBytes "*.a.example") = true ∧ matchHost (strBytes "x.y.a.example") (strBytes "*.a.example") = false := by decide +kernel
 /-- a filter on the exchange above, both branches -/
